@@ -524,6 +524,64 @@ example : fee (activate (activate (actDemo 14000000 false) true [(1, 2)]) true [
     Store.get (activate (activate (actDemo 14000000 false) true [(1, 2)]) true [(1, 2)]).amap (1, 2) = some { surplus := true } ∧
     bal (activate (activate (actDemo 14000000 false) true [(1, 2)]) true [(1, 2)]) .auction 2 = 4000000 := by decide
 
+/-! ## first-generation surplus / debt auctions: every close path (x/auction/keeper/surplus.go, debt.go) -/
+
+/-- **Every close path keeps the books and is exact**: winner, no bids, emergency shutdown with and without a standing bid, for
+surplus and debt auctions alike — locker books untouched, collector custody ≥ Σ net fees per asset preserved (same shortfall `D`),
+and per asset the recorded net fees move by exactly what entered or left the collector account. -/
+theorem gen1_close_keeps_books {D : Nat → Int} (s s' : State) (a : Auc1) (esm : Bool) (hL : LInv s) (hC : CInvD D s)
+    (h : closeAuc s a esm = some s') : LInv s' ∧ CInvD D s' ∧ Delta s s' :=
+  closeAuc_inv hL hC h
+
+/-- which record moves by how much, and which coins enter the collector, path by path:
+the lot comes BACK to the collector and is recorded under the auction's own (app, asset) exactly when
+ (surplus auction: no bid, or emergency shutdown with a standing bid — the bid is refunded)  or
+ (debt auction: a winner and no shutdown — his payment is what arrives);
+on every other path (surplus winner: lot to the winner, bid burnt; debt shutdown: payment refunded; debt without bids) no record
+and no collector balance moves. -/
+theorem gen1_close_collector_effect {D : Nat → Int} (s s' : State) (a : Auc1) (esm : Bool) (hL : LInv s) (hC : CInvD D s)
+    (h : closeMoves s a esm = some s') :
+    let back := (a.surplus = true ∧ (a.bidder = none ∨ esm = true)) ∨ (a.surplus = false ∧ a.bidder ≠ none ∧ esm = false)
+    (back → fee s' (a.app, a.asset) = fee s (a.app, a.asset) + a.lot ∧
+            bal s' .collector a.asset = bal s .collector a.asset + a.lot) ∧
+    (¬ back → s'.fees = s.fees ∧ ∀ d, bal s' .collector d = bal s .collector d) := by
+  unfold closeMoves at h
+  simp only at h
+  intro back
+  cases hsur : a.surplus <;> cases hb : a.bidder <;> cases esm <;> simp only [hsur, hb] at h <;>
+    simp only [back, hsur, hb] <;> simp
+  all_goals first
+    | (simp at h; subst h; exact ⟨rfl, fun _ => rfl⟩)
+    | (obtain ⟨_, _, _, e1, e2⟩ := toCollector_inv hL hC h; exact ⟨e1, e2⟩)
+    | (obtain ⟨_, _, _, e1, e2⟩ := toUser_inv hL hC h; exact ⟨e1, e2⟩)
+
+/-- the whole first-generation begin-blocker (starts, restarts, closes of every entry) keeps the books and is exact -/
+theorem gen1_begin_block_keeps_books {D : Nat → Int} (s : State) (now : Int) (keys : List (Nat × Nat)) (hL : LInv s) (hC : CInvD D s) :
+    LInv (begin1Loop s s.amap now keys) ∧ CInvD D (begin1Loop s s.amap now keys) ∧ Delta s (begin1Loop s s.amap now keys) :=
+  begin1Loop_inv s.amap now keys hL hC
+
+/-- bids never touch the collector or the locker books -/
+theorem gen1_bids_keep_books {D : Nat → Int} (s s' : State) (app id u : Nat) (x e now : Int) (hL : LInv s) (hC : CInvD D s)
+    (h : surplusBid s app id u x now = some s' ∨ debtBid s app id u x e now = some s') : LInv s' ∧ CInvD D s' ∧ Delta s s' := by
+  rcases h with h | h
+  · exact surplusBid_inv hL hC h
+  · exact debtBid_inv hL hC h
+
+/-- a surplus auction of lot 2 000 000 starts at the boundary, gets a bid, the app is shut down, the begin-blocker winds it down:
+the lot is back in the collector AND recorded under the sold asset (record = custody = 12 000 000 again), the entry is inactive,
+no auction is left -/
+def windDown : State :=
+  runSkip ({ init [2, 3] [1] [((1, 2), { surplusThr := 10000000, debtThr := 5000000, lot := 2000000, debtLot := 1 })] with aucDur := 1000, bidDur := 100 })
+    [.penalty 1 2 12000000, .config (.amap 1 2 { surplus := true }), .begin1 50 [(1, 2)], .surplusBid 1 1 7 5 60,
+     .config (.esm 1 true), .begin1 70 [(1, 2)]]
+example : fee windDown (1, 2) = 12000000 ∧ bal windDown .collector 2 = 12000000 ∧ fee windDown (1, 3) = 0 ∧
+    windDown.auctions = [] ∧ Store.get windDown.amap (1, 2) = some { surplus := true } := by decide
+/-- without the shutdown the same auction ends with its winner: the lot leaves to user 7, the collector keeps 10 000 000 = record -/
+example :
+    let s := runSkip ({ init [2, 3] [1] [((1, 2), { surplusThr := 10000000, debtThr := 5000000, lot := 2000000, debtLot := 1 })] with aucDur := 1000, bidDur := 100 })
+      [.penalty 1 2 12000000, .config (.amap 1 2 { surplus := true }), .begin1 50 [(1, 2)], .surplusBid 1 1 7 5 60, .begin1 170 [(1, 2)]]
+    fee s (1, 2) = 10000000 ∧ bal s .collector 2 = 10000000 ∧ bal s (.user 7) 2 = 2000000 ∧ s.auctions = [] := by decide
+
 /-! ## emergency shutdown and kill switch: the first guards of the locker messages -/
 
 /-- **Guard on ⇒ rejected, nothing changes**: after an emergency shutdown of the app, or with its kill switch on, creating a locker,
